@@ -94,8 +94,10 @@ def write(prop, tier, seed, sel, results, metas, overlay_info, wall, violations,
                             "verdict": r.get("verdict", "undecided")})
 
     samples = []
-    for ent in units_out[:6]:
+    by_name = {u["name"]: u for u in sel}
+    for ent in units_out[:8]:
         samples.append({"unit": ent["unit"], "kind": ent["kind"], "functions": ent["functions_under_contract"],
+                        "contract": by_name.get(ent["unit"], {}).get("contract_text", ""),
                         "obligations": ent["obligations"], "verdict": ent["verdict"]})
 
     n_proof_units = sum(1 for u in sel if u["kind"] in PROOF_KINDS and not u.get("finding"))
